@@ -24,6 +24,8 @@ def main():
     root = '/tmp/sa'; names = {'a': 'a', 'b': 'b'}
     if '--round2' in args:
         args.remove('--round2'); root = '/tmp/sb'; names = {'a': 'c', 'b': 'd'}
+    if '--round3' in args:
+        args.remove('--round3'); root = '/tmp/sc'; names = {'a': 'e', 'b': 'f'}
     for prop in args:
         src = '%s/%s/out' % (root, prop)
         for v in ('a', 'b'):
